@@ -245,7 +245,7 @@ impl<'a> FnTr<'a> {
     pub(crate) fn act(&mut self, st: &mut Stmts, term: String) -> String {
         let n = self.fresh();
         // builder O: in I/O mode a checked primitive is lifted into the I/O monad
-        let term = if self.reg.io.borrow().mode { format!("Rt.Phy.ofOpt ({})", term) } else { term };
+        let term = if self.reg.io.borrow().mode && !self.reg.io.borrow().in_pure { format!("Rt.Phy.ofOpt ({})", term) } else { term };
         st.push((n.clone(), Rhs::Act(term)));
         n
     }
@@ -858,6 +858,46 @@ impl<'a> FnTr<'a> {
         Ok(fsig)
     }
 
+    /// builder P: a module-level function of the unit's files, translated on demand (I/O mode), emitted before
+    /// the caller and unfolded by `gen_unfold_helpers_<Unit>`
+    fn free_fn_on_demand(&mut self, name: &str) -> Res<Option<FnSig>> {
+        let key = format!("::{}", name);
+        if let Some(s) = self.reg.dyn_fns.borrow().get(&key) {
+            return Ok(Some(s.clone()));
+        }
+        if self.reg.dyn_stack.borrow().contains(&key) {
+            return Err(format!("recursive function {}", name));
+        }
+        let files = match self.reg.files.clone() {
+            Some(f) => f,
+            None => return Ok(None),
+        };
+        let g = match files.iter().find_map(|f| f.items.iter().find_map(|it| if let Item::Fn(g) = it { if g.sig.ident == name { Some(g) } else { None } } else { None })) {
+            Some(g) => g,
+            None => return Ok(None),
+        };
+        self.reg.dyn_stack.borrow_mut().push(key.clone());
+        let mut sub = FnTr {
+            reg: self.reg,
+            self_ty: None,
+            ret: Ty::Unit,
+            counter: 0,
+            fn_prefix: name.to_string(),
+            local_fns: HashMap::new(),
+            extra_defs: vec![],
+            muts: vec![],
+            tparams: HashMap::new(),
+        };
+        let r = sub.function(&g.sig, &g.block, name);
+        self.reg.dyn_stack.borrow_mut().pop();
+        let (text, fsig) = r.map_err(|e| format!("function {}: {}", name, e))?;
+        self.extra_defs.extend(sub.extra_defs);
+        self.extra_defs.push(text);
+        self.reg.helpers.borrow_mut().push(name.to_string());
+        self.reg.dyn_fns.borrow_mut().insert(key, fsig.clone());
+        Ok(Some(fsig))
+    }
+
     /// builder L: is `e` a call `recv.m()` of a method `m(&mut self) -> Option<&mut T>` of a modelled struct?
     /// Returns (getter, setter, T, receiver).
     fn lens_call<'e>(&mut self, e: &'e Expr, env: &Env) -> Res<Option<(String, String, Ty, &'e Expr)>> {
@@ -1013,6 +1053,17 @@ impl<'a> FnTr<'a> {
 
     /// Translate a whole function; returns Lean text and the signature.
     pub fn function(&mut self, sig: &Signature, body: &Block, lean_name: &str) -> Res<(String, FnSig)> {
+        // builder P: inside a non-`Result` function translated while the I/O mode is on (`C::ramp_value`), checked
+        // primitives stay in `Option` (they are lifted where the I/O action calls the function)
+        let io_fn = self.reg.io.borrow().mode && crate::phyio::is_io_fn(sig);
+        let was = self.reg.io.borrow().in_pure;
+        self.reg.io.borrow_mut().in_pure = !io_fn;
+        let r = self.function_inner(sig, body, lean_name);
+        self.reg.io.borrow_mut().in_pure = was;
+        r
+    }
+
+    fn function_inner(&mut self, sig: &Signature, body: &Block, lean_name: &str) -> Res<(String, FnSig)> {
         // builder O (I/O mode): `-> Result<_, RadioError>` functions are actions of `Rt.Phy.IoM`
         if self.reg.io.borrow().mode && crate::phyio::is_io_fn(sig) {
             return crate::phyio::function_io(self, sig, body, lean_name);
@@ -1439,7 +1490,107 @@ impl<'a> FnTr<'a> {
         }
     }
 
+    /// builder P: `match (a, b) { (Enum::V, lo..=hi) => .., .. }` — a tuple of expressions matched against tuple
+    /// patterns with integer ranges / literals becomes an if-chain over the components (first arm that matches)
+    fn match_tuple_chain(&mut self, m: &ExprMatch, env: &mut Env, st: &mut Stmts, expect: Option<Ty>) -> Res<Option<(Tail, Ty)>> {
+        fn has_range(p: &Pat) -> bool {
+            match p {
+                Pat::Range(_) => true,
+                Pat::Tuple(t) => t.elems.iter().any(has_range),
+                Pat::Paren(pp) => has_range(&pp.pat),
+                Pat::Or(o) => o.cases.iter().any(has_range),
+                _ => false,
+            }
+        }
+        let comps = match &*m.expr {
+            Expr::Tuple(t) => t,
+            _ => return Ok(None),
+        };
+        if !m.arms.iter().any(|a| matches!(&a.pat, Pat::Tuple(_)) && has_range(&a.pat)) || m.arms.iter().any(|a| a.guard.is_some()) {
+            return Ok(None);
+        }
+        let mut cs: Vec<(String, Ty)> = vec![];
+        for e in comps.elems.iter() {
+            let (c, ty) = self.ex(e, env, st, None)?;
+            let c = if c.chars().all(|ch| ch.is_alphanumeric() || ch == '_' || ch == '.') {
+                c
+            } else {
+                let n = self.fresh();
+                st.push((n.clone(), Rhs::Pure(c)));
+                n
+            };
+            cs.push((c, ty));
+        }
+        let mut res_ty: Option<Ty> = None;
+        let mut arms: Vec<(Option<String>, Seq)> = vec![];
+        for arm in &m.arms {
+            let mut env_a = env.clone();
+            let mut pre: Stmts = vec![];
+            let cond: Option<String> = match &arm.pat {
+                Pat::Wild(_) => None,
+                Pat::Tuple(t) if t.elems.len() == cs.len() => {
+                    let mut parts = vec![];
+                    for (sub, (c, ty)) in t.elems.iter().zip(cs.iter()) {
+                        match (sub, ty) {
+                            (Pat::Wild(_), _) => {}
+                            (Pat::Ident(i), _) if i.ident != "None" => {
+                                env_a.insert(i.ident.to_string(), ty.clone());
+                                pre.push((lean_ident(&i.ident.to_string()), Rhs::Pure(c.clone())));
+                            }
+                            (_, Ty::Int(_)) | (_, Ty::IntLit) => {
+                                if let Some(x) = self.int_pat_cond(sub, c, &mut env_a, ty)? {
+                                    parts.push(format!("({})", x));
+                                }
+                            }
+                            (Pat::Path(pp), Ty::Named(tn)) => {
+                                let var = pp.path.segments.last().unwrap().ident.to_string();
+                                parts.push(format!("{} = {}.{}", c, tn, lean_ident(&var)));
+                            }
+                            (Pat::Lit(l), Ty::Bool) => match &l.lit {
+                                Lit::Bool(b) => parts.push(format!("{} = {}", c, b.value)),
+                                _ => return Err("tuple match: unsupported literal".into()),
+                            },
+                            _ => return Err(format!("tuple match: unsupported component pattern {}", quote::quote!(#sub))),
+                        }
+                    }
+                    if parts.is_empty() {
+                        None
+                    } else {
+                        Some(parts.join(" ∧ "))
+                    }
+                }
+                other => return Err(format!("tuple match: unsupported arm pattern {}", quote::quote!(#other))),
+            };
+            let mut stb: Stmts = pre;
+            let (t, ty) = self.tail_expr_ty(&arm.body, &mut env_a, &mut stb, expect.clone())?;
+            if !matches!(t, Tail::Panic) {
+                res_ty = Some(match res_ty.take() {
+                    None => ty,
+                    Some(o) => unify(&o, &ty).or_else(|_| unify_opt(&o, &ty, &None))?,
+                });
+            }
+            arms.push((cond, Seq { stmts: stb, tail: t }));
+        }
+        let mut acc: Option<Seq> = None;
+        for (c, s) in arms.into_iter().rev() {
+            acc = Some(match (c, acc) {
+                (None, _) => s,
+                (Some(c), Some(rest)) => Seq { stmts: vec![], tail: Tail::If(format!("decide ({})", c), Box::new(s), Box::new(rest)) },
+                (Some(c), None) => Seq {
+                    stmts: vec![],
+                    tail: Tail::If(format!("decide ({})", c), Box::new(s), Box::new(Seq { stmts: vec![], tail: Tail::Panic })),
+                },
+            });
+        }
+        let seq = acc.ok_or("empty match")?;
+        st.extend(seq.stmts);
+        Ok(Some((seq.tail, res_ty.or(expect).unwrap_or(Ty::Unit))))
+    }
+
     fn match_expr(&mut self, m: &ExprMatch, env: &mut Env, st: &mut Stmts, expect: Option<Ty>) -> Res<(Tail, Ty)> {
+        if let Some(r) = self.match_tuple_chain(m, env, st, expect.clone())? {
+            return Ok(r);
+        }
         let (sc, sty) = self.ex(&m.expr, env, st, None)?;
         let mut res_ty: Option<Ty> = None;
         let mut upd = |t: Ty, res_ty: &mut Option<Ty>| -> Res<()> {
@@ -1581,6 +1732,23 @@ impl<'a> FnTr<'a> {
         }
         let cmp = matches!(op, Eq(_) | Ne(_) | Lt(_) | Le(_) | Gt(_) | Ge(_));
         let shift = matches!(op, Shl(_) | Shr(_));
+        // builder P (I/O mode): `1 << 6` between unsuffixed literals whose type is only fixed later (a component of a
+        // tuple-valued match): folded, the literal stays open (rustc rejects an overflowing constant shift)
+        if shift && self.reg.io.borrow().mode && !matches!(expect, Some(Ty::Int(_))) {
+            fn lit(e: &Expr) -> Option<i128> {
+                match e {
+                    Expr::Lit(ExprLit { lit: Lit::Int(i), .. }) if i.suffix().is_empty() => i.base10_parse::<i128>().ok(),
+                    Expr::Paren(p) => lit(&p.expr),
+                    _ => None,
+                }
+            }
+            if let (Some(a), Some(b)) = (lit(l), lit(r)) {
+                if (0..64).contains(&b) && a >= 0 {
+                    let v = if matches!(op, Shl(_)) { a << b } else { a >> b };
+                    return Ok((v.to_string(), Ty::IntLit));
+                }
+            }
+        }
         let exp_operand = if cmp || shift { None } else { expect.clone() };
         let (a, ta) = self.ex(l, env, st, exp_operand.clone())?;
         let (b, tb) = self.ex(r, env, st, if shift { None } else if matches!(ta, Ty::Int(_)) { Some(ta.clone()) } else { exp_operand })?;
@@ -2076,7 +2244,13 @@ impl<'a> FnTr<'a> {
         }
         // local nested fn, then registry
         let sig = if segs.len() == 1 {
-            self.local_fns.get(&segs[0]).cloned().or_else(|| self.reg.fns.get(&segs[0]).cloned())
+            match self.local_fns.get(&segs[0]).cloned().or_else(|| self.reg.fns.get(&segs[0]).cloned()) {
+                Some(s) => Some(s),
+                // builder P (I/O mode): a module-level function called from a method that was itself translated on
+                // demand (`coding_rate_value` in `Sx1272::set_modulation_params`)
+                None if self.reg.io.borrow().mode => self.free_fn_on_demand(&segs[0])?,
+                None => None,
+            }
         } else {
             let tyn = if segs[segs.len() - 2] == "Self" { self.self_ty.clone().unwrap_or_default() } else { segs[segs.len() - 2].clone() };
             // builder O: a generic parameter the unit fixes (`C::set_tx_power(..)` with `Alias("C", "Sx1276")`)
@@ -2084,7 +2258,15 @@ impl<'a> FnTr<'a> {
                 Some(Ty::Named(n)) => n.clone(),
                 _ => tyn,
             };
-            self.reg.fns.get(&format!("{}::{}", tyn, segs[segs.len() - 1])).cloned()
+            match self.reg.fns.get(&format!("{}::{}", tyn, segs[segs.len() - 1])).cloned() {
+                Some(s) => Some(s),
+                // builder P (I/O mode): an associated function of the variant (`C::set_tx_power(self, ..)`,
+                // `Self::bandwidth_value(..)`) is translated on demand like a helper method
+                None if self.reg.io.borrow().mode && (self.reg.structs.contains_key(&tyn) || self.reg.enums.contains_key(&tyn)) => {
+                    Some(self.method_on_demand(&tyn, &segs[segs.len() - 1])?)
+                }
+                None => None,
+            }
         };
         let sig = sig.ok_or(format!("call of unknown function {}", name))?;
         if !sig.muts.is_empty() {
